@@ -285,6 +285,32 @@ let handle (toks : string list) : string =
             (d', (show d' ^ (if wrote_through m s d then "!" else "")) :: acc)
         | _ -> failwith "lk step") (dent dinit, []) steps in
       String.concat "," (List.rev outs)
+  | ["TN"; name] ->
+      let n = List.map n_of_int (raw_of_hex name) in
+      let out = temp_name n in
+      let h l = if l = [] then "-" else String.concat "" (List.map (fun c -> Printf.sprintf "%02x" (int_of_n c)) l) in
+      "name=" ^ h out ^ " samedir=" ^ (if fst (temp_path (N0, n)) = N0 then "1" else "0")
+  | ["WX"; name; ext] ->
+      let n = List.map n_of_int (raw_of_hex name) and e = List.map n_of_int (raw_of_hex ext) in
+      let h l = if l = [] then "-" else String.concat "" (List.map (fun c -> Printf.sprintf "%02x" (int_of_n c)) l) in
+      "name=" ^ h (with_extension n e)
+  | ["TS"; naming; tasks; sched; world] ->
+      (* tasks: kind(d|c):dir:hexname,...  sched: i.i.i or -  world: dir:hexname,... (pre-existing paths) -> final state on the universe *)
+      let tn = if naming = "pinned" then pinned_temp_path else temp_path in
+      let pth d nm = (n_of_int (int_of_string d), List.map n_of_int (raw_of_hex nm)) in
+      let ts = List.mapi (fun i it -> match String.split_on_char ':' it with
+        | [k; d; nm] -> { tk_id = n_of_int (i + 1); tk_dest = pth d nm; tk_kind = (if k = "d" then KDelta else KDirect) }
+        | _ -> failwith "task") (String.split_on_char ',' tasks) in
+      let sc = if sched = "-" then [] else List.map (fun x -> nat_of_int (int_of_string x)) (String.split_on_char '.' sched) in
+      let pre = if world = "-" then [] else List.map (fun it -> match String.split_on_char ':' it with
+        | [d; nm] -> pth d nm | _ -> failwith "world") (String.split_on_char ',' world) in
+      let s0 q = (let rec find i = function [] -> None | p :: r -> if fpath_eqb q p then Some (TOld (n_of_int i)) else find (i + 1) r in find 1 pre) in
+      let uni = List.sort_uniq compare (pre @ List.map (fun t -> t.tk_dest) ts @ List.map (fun t -> tn t.tk_dest) ts) in
+      let fin = run_tasks tn ts sc s0 in
+      let h l = if l = [] then "-" else String.concat "" (List.map (fun c -> Printf.sprintf "%02x" (int_of_n c)) l) in
+      String.concat "," (List.map (fun q -> Printf.sprintf "%d:%s=%s" (int_of_n (fst q)) (h (snd q))
+        (match fin q with None -> "none" | Some (TOld i) -> "old" ^ string_of_int (int_of_n i) | Some (TTorn t) -> "torn" ^ string_of_int (int_of_n t)
+                        | Some (TNew t) -> "new" ^ string_of_int (int_of_n t))) uni)
   | _ -> "BADCASE"
 
 let () =
